@@ -33,10 +33,6 @@ def run(ctx, ss):
         ctx.guard(r, f, ss)
     # C07.9 'statements anywhere in the text are each reflected': the text is assembled completely from the files given
     # (C02.6-C02.8) and nothing on the reading path remembers an earlier input (shared.py)
-    from .c02 import p6, p7, p8
-    from .c05 import _as
-    for f_ in (p6, p7, p8):
-        ctx.guard("C07.9", lambda c, s, f_=f_: _as(c, s, f_, "C07.9"), ss)
     from .shared import reading_path
     ctx.guard("C07.9", reading_path, ss, "C07.9", [f"DecFileParser.{m}" for m in WRAPPERS], "a global declaration")
 
